@@ -25,7 +25,7 @@ def permute(rng, p):
 
 def obs_of(lines):
     """order-free observation of an expansion: per type the set of variants with fields/attrs/arms, tables, wrapper parts"""
-    out = {}
+    out, raw, decl = {}, {}, {}
     for l in lines:
         k, _, v = l.partition("=")
         if k.endswith(" variants") and k.startswith("enum "):
@@ -39,8 +39,20 @@ def obs_of(lines):
         elif k.startswith("wrapper ") and (k.endswith(" schema") or k.endswith(" responses")):
             how, _, parts = v.partition(":")
             out[k] = (how, tuple(sorted(parts.split(","))))  # any_of / union over the parts: a set
+        elif k.startswith("api "):
+            # the alias of a message type: which type, with which parameters (as a set; their order is first-use order and
+            # is only required to be the order the type itself declares - see `consistent` below)
+            ty, _, args = v.partition(":")
+            out[k] = (ty, tuple(sorted(a for a in args.split(",") if a)))
+            raw[k] = [a for a in args.split(",") if a] if not v.startswith("?") else None
         else:
             out[k] = v
+        if k.endswith(" generics"):
+            decl[k.split()[1]] = [a for a in v.split(",") if a]
+    for k, args in raw.items():
+        ty = out[k][0]
+        if args is not None and ty in decl:
+            out[k + " consistent"] = args == decl[ty]
     return out
 
 
